@@ -77,6 +77,10 @@ func (v *verifier) check(i int, s *channel.State, enc []byte, sig wallet.Sig) st
 			r = "Verify error: " + err.Error()
 		} else if !ok {
 			r = "signature does not verify"
+		} else if wok, werr := wallet.VerifySignature(enc, sig, a); werr != nil || !wok {
+			// the sim channel backend signs the state's encoding with the wallet key:
+			// checked once more below the channel backend, which could be wrong itself
+			r = fmt.Sprintf("channel.Verify accepts the signature, but it is not a wallet signature of the participant over the state's encoding (ok=%v err=%v)", wok, werr)
 		}
 	}
 	verifyMemo[k] = r
@@ -287,7 +291,7 @@ func TestRandom(t *testing.T) {
 	rec := h.Begin("C01", "random")
 	rec.SetRule("rapid: sequences of 1..60 operations; two (75%) or three participants, own index 0/1, no-app or payment app; each step uniformly from the complete alphabet (40%) or from the operations the protocol suggests in the present phase incl. wrong-signer/replayed/duplicate signatures, one-signature-short enables and re-staging in signing phases (60%, steered by a scratch machine while drawing); "+oracle, assumptions...)
 	defer rec.Flush()
-	g := mach.GenCase(mach.GenOpts{MinLen: 1, MaxLen: 60, Ns: []int{2, 3}, Guided: 60})
+	g := mach.GenCase(mach.GenOpts{MinLen: 1, MaxLen: 60, Ns: []int{2, 3}, Guided: 60, FewCols: true})
 	rapid.Check(t, func(rt *rapid.T) {
 		c := g.Draw(rt, "case")
 		rec.Report(rt, c, runCase(c))
